@@ -181,7 +181,7 @@ LEVEL_TEXT = {
         "Tie: op sequences at structural boundaries against the library view; the executable WF check is still evaluated per explored image as a cross-check.",
  "C18": "Theorems: layout (files, sizes, pad area, total) is a function of tree and mode only; a descriptor depends on the clock only through its two 17-byte timestamp fields; the system area depends on the random filler only through its 0x1C0-byte field (not at all without PS3 mode); everything else in the metadata is a function of the layout. "
         "Tie: every image is built again later and concurrently and compared masked.",
- "C10": "Theorems, parametric in the sector cipher: for every table, content, offset and length the view's read equals the slice of the one reference plaintext (sector rule: stored outside gaps, D(stored) for complete sectors in gaps), so any Read/Seek/ReadAt/chunking observes the same bytes; tables are accepted iff 2..255 regions, first at 0, each non-empty, starts not before previous ends; short/huge tables rejected; header clearing zeroes exactly the table. "
+ "C10": "Theorems, parametric in the sector cipher: for every table, content, offset and length the view's read equals the slice of the one reference plaintext (sector rule: stored outside gaps, D(stored) for complete sectors in gaps), so any Read/Seek/ReadAt/chunking observes the same bytes; tables are accepted iff 2..255 regions, first at 0, each non-empty, starts not before previous ends; short/huge tables rejected; header clearing zeroes exactly the table. table_roundtrip: a table of up to 255 regions with 32-bit borders written in the disc format and followed by any content is read back exactly (decode . encode = id). "
         "Tie: differential incl. unaligned reads against a crypto/aes reference decryptor; the Lean AES instance is validated by it.",
  "C11": "Theorems on the FS.OpenFile decision chain: no key lookup unless .iso (any case) below ps3iso (any case); adjacent key wins, REDKEY only as fallback, a malformed/unreadable key fails the open (no fallback); watermark test incl. short files; the 3k3y mask zeroes exactly [0xF70,0x1070) for any read range (pointwise); everything else, directories and write opens get no wrapper. "
         "Tie: the full product of layouts (exhaustive in thorough) against an independent decision table.",
